@@ -37,6 +37,12 @@ claimed = {
  "C14": dict(
    text="Algebraic slot model of the real collective key-generation protocols (public key, relinearization key both rounds, Galois key) for 1-3 parties with all secrets, errors and CRS polynomials atoms: every party reads the same reference polynomial from equally keyed CRS objects, the aggregate is independent of order/grouping (exact polynomial identity), and the resulting key is a key of the sum of the secrets (checked by using it: encryption+decryption, relinearisation, automorphism under the ideal secret, up to error atoms); mismatched Galois shares are rejected; parameter sets with and without P. The numeric N-times-single-party noise bound and serialization of shares are outside here (C08).",
    ref="DESIGN.md §6-C14", technique="SSA symbolic execution in the algebraic slot model + SMT (LIA) on the normalised identities"),
+ "C15": dict(
+   text="Algebraic slot model of the real Thresholdizer and Combiner: secrets and all Shamir polynomial coefficients are atoms, public points concrete (small, 2^32-sized, above the moduli, 2^63+5); for every t-subset of the parties in every listing order the additive shares sum to the ideal secret as an exact polynomial identity over R_QP, and fewer than t active parties are refused. Symbolic public points are outside (non-linear Lagrange arithmetic).",
+   ref="DESIGN.md §6-C15", technique="SSA symbolic execution in the algebraic slot model (concrete evaluation points) + SMT (LIA) on the normalised identities"),
+ "C16": dict(
+   text="Algebraic slot model of the real KeySwitchProtocol (incl. zero target key = collective decryption) and PublicKeySwitchProtocol for 1-3 parties, maximum level and level 0, with and without P: Dec under the target key of the switched ciphertext equals Dec under the ideal secret of the input up to error atoms, the aggregate is independent of order, every share carries a smudging error atom. Encryption-to-shares, refresh and masked transform (big-integer masks, encoders) are outside.",
+   ref="DESIGN.md §6-C16", technique="SSA symbolic execution in the algebraic slot model + SMT (LIA) on the normalised identities"),
  "C19": dict(
    text="Symbolic execution of rlwe.CheckModuli with a symbolic candidate modulus and an arbitrary primality oracle (solver characterises every accepted size), plus boundary witnesses (real primes) checked against the 61-bit size the arithmetic layer supports (8q<=2^64, from the C01 stage invariants).",
    ref="DESIGN.md §6-C19", technique="SSA symbolic execution + SMT (BV) over the acceptance predicates; concrete boundary witnesses replayed natively"),
